@@ -219,6 +219,15 @@ func (pa *provAnalysis) addrProv(addr ssa.Value, ctx *provCtx) provSet {
 		case *ssa.Alloc:
 			// local struct (or heap literal): what was stored into this field
 			out.add(pa.storedInto(a, r, path, ctx))
+			// ... or into the struct as a whole (a copy of a slice element, a
+			// dereferenced parameter): the same field of the copied value
+			for _, ref := range *r.Referrers() {
+				if st, ok := ref.(*ssa.Store); ok && st.Addr == ssa.Value(r) {
+					if _, isConst := st.Val.(*ssa.Const); !isConst {
+						out.add(pa.fieldOfValue(st.Val, path, ctx, 0))
+					}
+				}
+			}
 			if rn := rootTypeName(r.Type()); rn == "Info" || rn == "Content" || rn == "FileInfo" {
 				out[rn+"."+path] = true
 				if rn != "Info" {
@@ -249,6 +258,10 @@ func (pa *provAnalysis) addrProv(addr ssa.Value, ctx *provCtx) provSet {
 		}
 	case *ssa.Alloc:
 		out := provSet{}
+		// a local struct read as a whole: everything stored into its fields
+		if _, isStruct := derefType(a.Type()).Underlying().(*types.Struct); isStruct {
+			pa.storesBelow(a, ctx, out, 0)
+		}
 		for _, ref := range *a.Referrers() {
 			if st, ok := ref.(*ssa.Store); ok && st.Addr == ssa.Value(a) {
 				out.add(pa.of(st.Val, ctx))
@@ -329,6 +342,127 @@ func (pa *provAnalysis) fieldClosure(t types.Type, path string, out provSet) {
 		out.add(pa.of(v, nil))
 	}
 	delete(pa.busyField, k)
+}
+
+// fieldOfValue: provenance of field `path` of a struct value.
+func (pa *provAnalysis) fieldOfValue(v ssa.Value, path string, ctx *provCtx, depth int) provSet {
+	if depth > 6 {
+		return pa.of(v, ctx)
+	}
+	switch x := v.(type) {
+	case *ssa.UnOp:
+		if x.Op == token.MUL {
+			return pa.addrFieldProv(x.X, path, ctx, depth+1)
+		}
+	case *ssa.Phi:
+		out := provSet{}
+		for _, e := range x.Edges {
+			out.add(pa.fieldOfValue(e, path, ctx, depth+1))
+		}
+		return out
+	}
+	return pa.of(v, ctx)
+}
+
+// storedAt: values stored at addr.<path> (FieldAddr chains below addr).
+func (pa *provAnalysis) storedAt(addr ssa.Value, path string, ctx *provCtx, out provSet) {
+	var visit func(v ssa.Value, prefix string, d int)
+	visit = func(v ssa.Value, prefix string, d int) {
+		if d > 6 || v.Referrers() == nil {
+			return
+		}
+		for _, ref := range *v.Referrers() {
+			f2, ok := ref.(*ssa.FieldAddr)
+			if !ok {
+				continue
+			}
+			p := fieldName(f2.X.Type(), f2.Field)
+			if prefix != "" {
+				p = prefix + "." + p
+			}
+			if p == path {
+				for _, r2 := range *f2.Referrers() {
+					if st, ok := r2.(*ssa.Store); ok && st.Addr == ssa.Value(f2) {
+						out.add(pa.of(st.Val, ctx))
+					}
+				}
+			} else if strings.HasPrefix(path, p+".") {
+				visit(f2, p, d+1)
+			}
+		}
+	}
+	visit(addr, "", 0)
+}
+
+// addrFieldProv: provenance of field `path` of the struct stored at addr.
+func (pa *provAnalysis) addrFieldProv(addr ssa.Value, path string, ctx *provCtx, depth int) provSet {
+	out := provSet{}
+	if depth > 6 {
+		return pa.addrProv(addr, ctx)
+	}
+	whole := func(a ssa.Value) {
+		if a.Referrers() == nil {
+			return
+		}
+		for _, ref := range *a.Referrers() {
+			if st, ok := ref.(*ssa.Store); ok && st.Addr == a {
+				if _, isConst := st.Val.(*ssa.Const); !isConst {
+					out.add(pa.fieldOfValue(st.Val, path, ctx, depth+1))
+				}
+			}
+		}
+	}
+	switch a := addr.(type) {
+	case *ssa.Alloc:
+		pa.storedAt(a, path, ctx, out)
+		whole(a)
+		return out
+	case *ssa.IndexAddr:
+		if al := allocOf(a.X); al != nil {
+			for _, ref := range *al.Referrers() {
+				if ia, ok := ref.(*ssa.IndexAddr); ok {
+					pa.storedAt(ia, path, ctx, out)
+					whole(ia)
+				}
+			}
+			return out
+		}
+		// a slice produced elsewhere (call result, parameter): follow it to
+		// its backing literal when it is a module function's result
+		if call, ok := a.X.(*ssa.Call); ok {
+			if sc := call.Call.StaticCallee(); sc != nil && sc.Blocks != nil && pa.c.isModuleFunc(sc) {
+				for _, b := range sc.Blocks {
+					if ret, ok := b.Instrs[len(b.Instrs)-1].(*ssa.Return); ok {
+						for _, res := range retResults(ret) {
+							if al := allocOf(res); al != nil {
+								for _, ref := range *al.Referrers() {
+									if ia, ok := ref.(*ssa.IndexAddr); ok {
+										pa.storedAt(ia, path, nil, out)
+									}
+								}
+							}
+						}
+					}
+				}
+				if len(out) > 0 {
+					return out
+				}
+			}
+		}
+		return pa.of(a.X, ctx)
+	case *ssa.FieldAddr:
+		return pa.addrFieldProv(a.X, fieldName(a.X.Type(), a.Field)+"."+path, ctx, depth+1)
+	}
+	// pointer from elsewhere: type-rooted atom
+	rn := rootTypeName(addr.Type())
+	if rn != "" {
+		out[rn+"."+path] = true
+		if rn != "Info" {
+			pa.fieldClosure(addr.Type(), path, out)
+		}
+		return out
+	}
+	return pa.addrProv(addr, ctx)
 }
 
 // storesBelow unions everything stored at addr or at any field/element
